@@ -39,6 +39,7 @@ THEOREMS = {
         "modules": ["Abnf.Theorems.C08", "Abnf.DriverCache"],
         "theorems": ["Abnf.C08.request_transparent", "Abnf.C08.cache_transparent", "Abnf.C08.fresh_caches_sound",
                      "Abnf.lparseC_sand", "Abnf.lparse_mono", "Abnf.lruOps_sound'", "Abnf.C08.cache_transparent_total",
+                     "Abnf.C08.aborted_request_keeps_caches_sound", "Abnf.C08.cache_transparent_with_aborts",
                      "Abnf.hmOps_sound", "Abnf.cidsOkG_sound", "Abnf.driver_request_eq"],
     },
     "C11": {
